@@ -92,7 +92,7 @@ Definition http_conn (srv : Z) : Z := 2000001 + 2 * srv.
 (* callbacks: 0 on_accept, 1 on_read, 2 on_write(close=false), 3 on_write(close=true) *)
 Definition hid_http (srv k : Z) : Z := hid_app srv k.
 
-Definition get_http (w : net) (srv : Z) : http := mget (mkHttp 0 [] 0 false true [] []) (w_http w) srv.
+Definition get_http (w : net) (srv : Z) : http := mget (mkHttp 0 [] 0 false true [] [] false) (w_http w) srv.
 Definition set_http (w : net) (srv : Z) (h : http) : net := w <| w_http := mset (w_http w) srv h |>.
 
 (* m_listen_socket.async_accept(m_connection, m_ep, on_accept) *)
@@ -118,7 +118,7 @@ Definition http_read (srv : Z) (w : net) : net * list kc :=
 (* http_server::close_connection *)
 Definition http_close_connection (cx : ctx) (srv : Z) (w : net) : net * list kc :=
   let h := get_http w srv in
-  let w := set_http w srv (h <| hs_buf := [] |> <| hs_bufsize := 0 |>) in
+  let w := set_http w srv (h <| hs_buf := [] |> <| hs_bufsize := 0 |> <| hs_stalled := false |>) in
   let (w, c0) := tcp_close cx (http_conn srv) w in
   if hs_close h then (w, c0)
   else let (w, c1) := http_accept cx srv w in (w, c0 ++ c1).
@@ -167,14 +167,17 @@ Definition http_process (cx : ctx) (srv : Z) (w : net) : net * list kc :=
   | HNeedMore => http_read srv w
   | HRespond len out close =>
       start_write_all cx (http_conn srv) out 65536 (hid_http srv (if close then 3 else 2)) (consume len)
-  | HStall len => (consume len, [])
+  | HStall len =>
+      if d31_http_stall_reads (cv cx)
+      then let w := consume len in http_read srv (set_http w srv (get_http w srv <| hs_stalled := true |>))
+      else (consume len, [])
   | HThrow len => http_close_connection cx srv (consume len)
   | HBad => http_close_connection cx srv w
   end.
 
 Definition http_new (cx : ctx) (srv node port : Z) (keep : bool) (w : net) : net * list kc :=
   let a := http_acc srv in
-  let w := set_http w srv (mkHttp node [] 0 false keep [] []) in
+  let w := set_http w srv (mkHttp node [] 0 false keep [] [] false) in
   let w := set_tcp w a (tcp_fresh node true) in
   let w := set_tcp w (http_conn srv) (tcp_fresh node false) in
   let v4 := match node_ips w node with ip :: _ => negb (a_v6 ip) | [] => true end in
@@ -196,6 +199,7 @@ Definition http_callback (cx : ctx) (srv k : Z) (args : list Z) (w : net) : net 
   | 0, e :: _ => if negb (e =? EC_OK) then http_close_connection cx srv w else http_read srv w
   | 1, e :: _ :: _ :: _ :: data =>
       if negb (e =? EC_OK) then http_close_connection cx srv w
+      else if hs_stalled h then http_read srv w            (* whatever else the client sends is dropped *)
       else http_process cx srv (set_http w srv (h <| hs_buf := hs_buf h ++ data |>))
   | 2, e :: _ =>
       if negb (e =? EC_OK) then http_close_connection cx srv w
@@ -525,7 +529,7 @@ Definition app_callback (cx : ctx) (app k : Z) (args : list Z) (w : net) : net *
 (* ================================================================== *)
 Definition get_socks (w : net) (srv : Z) : socks := mget (mkSocks 0 5 0 2048 [0; 0; 0] 0 false []) (w_socks w) srv.
 Definition set_socks (w : net) (srv : Z) (s : socks) : net := w <| w_socks := mset (w_socks w) srv s |>.
-Definition sconn0 : sconn := mkSconn 0 [] 0 0 [] 0.
+Definition sconn0 : sconn := mkSconn 0 [] 0 0 [] 0 ep_none.
 Definition get_sconn (w : net) (srv c : Z) : sconn := mget sconn0 (so_conns (get_socks w srv)) c.
 Definition set_sconn (w : net) (srv c : Z) (x : sconn) : net :=
   let s := get_socks w srv in set_socks w srv (s <| so_conns := mset (so_conns s) c x |>).
@@ -599,6 +603,7 @@ Definition socks_bind_connection (cx : ctx) (srv c : Z) (target : endpoint) (w :
 Definition socks_udp_associate (cx : ctx) (srv c : Z) (target : endpoint) (w : net) : net * list kc :=
   let so := get_socks w srv in
   let u := so_udp srv c in
+  let w := set_sconn w srv c (get_sconn w srv c <| sc_udp_ep := target |>) in
   let (w, c0) := udp_open cx u true w in
   let w := set_socks w srv (get_socks w srv <| so_bind_port := so_bind_port so + 1 |>) in
   let (err, w) := udp_bind u {| e_addr := addr_any4; e_port := so_bind_port so mod 65536 |} w in
@@ -835,8 +840,34 @@ Definition socks_conn_step (cx : ctx) (srv c k : Z) (args : list Z) (w : net) : 
       else
         let (w, c0) := tcp_abort_recv (so_server srv c) w in
         let (w, c1) := tcp_async_read_impl (so_server srv c) [65536] (hid_so srv c 15) w in (w, c0 ++ c1)
-  (* on_read_udp: only the aborted completion is modelled *)
-  | 17, e :: _ => if e =? EC_OK then (w, [KLog (TAG_DIAG, [17])]) else (w, [])
+  (* on_read_udp (IPv4 headers; the host-name form and datagrams shorter than a header are not modelled) *)
+  | 17, e :: n :: _ :: _ :: fam :: fa :: fp :: data =>
+      if negb (e =? EC_OK) then (w, [])
+      else
+        let u := so_udp srv c in
+        let from := {| e_addr := {| a_v6 := negb (fam =? 0); a_val := fa |}; e_port := fp |} in
+        let ep := sc_udp_ep x in
+        let ep := if (e_port ep =? 0) && addr_eqb (e_addr from) (e_addr ep) then {| e_addr := e_addr ep; e_port := fp |} else ep in
+        let w := set_sconn w srv c (x <| sc_udp_ep := ep |>) in
+        let '(w, c0) :=
+          if ep_eqb from ep then
+            if n <? 10 then (w, [KLog (TAG_DIAG, [17])])
+            else
+              let atyp := s8 (byte_at data 3) in
+              if atyp =? 1 then
+                let '(_, _, w, cs) := udp_send_to cx u [skipn 10 data]
+                                        {| e_addr := {| a_v6 := false; a_val := be32_at data 4 |}; e_port := be16_at data 8 |} w in
+                (w, cs)
+              else if atyp =? 3 then (w, [KLog (TAG_DIAG, [18])])
+              else (w, [])
+          else if a_v6 (e_addr from) then (w, [KLog (TAG_DIAG, [19])])
+          else
+            let hdr := [0; 0; 0; 1] ++ be32_bytes fa ++ be16_bytes fp in
+            let '(_, _, w, cs) := udp_send_to cx u [hdr; data] ep w in (w, cs) in
+        let (w, c1) := udp_abort_recv u w in
+        let (w, c2) := udp_async_recv_impl cx u [1500] true (hid_so srv c 17) w in
+        (w, c0 ++ c1 ++ c2)
+  | 17, _ => (w, [])
   | _, _ => (w, [])
   end.
 
